@@ -435,6 +435,18 @@ func runC11(env *core.Env, ci any) {
 		if len(leaked) > 0 {
 			env.Fail("shutdown-socket-leak", feature, "when Run returned (at %v, %v after the request) these proxy-side sockets were still open, and they were not closed in that instant either: %v", returnedAt, returnedAt-shutdownAt, leaked)
 		}
+		// the gauge is decremented by a close hook that runs right after the socket is closed: a never-served socket
+		// that its goroutine closes in the very instant Run returns may be closed already, yet still counted
+		closedInThatInstant := 0
+		for _, ep := range n.Endpoints() {
+			st := ep.State()
+			if !st.Dialer && st.HandedOut && strings.HasPrefix(st.Local, ipSUT+":") && st.Closed && st.ClosedAt == returnedAt {
+				closedInThatInstant++
+			}
+		}
+		if closedInThatInstant > sameInstant {
+			sameInstant = closedInThatInstant
+		}
 		if activeAtReturn > float64(sameInstant) {
 			env.Fail("shutdown-gauge", feature, "listener_cx_active is %v when Run returns, want 0", activeAtReturn)
 		} else if g := gaugeSum(s, "forwarder_listener_cx_active"); g != 0 {
